@@ -24,6 +24,7 @@ fn drivers() -> Vec<Box<dyn Driver>> {
         Box::new(props::c04::C05),
         Box::new(props::c07::C07),
         Box::new(props::c07::C08),
+        Box::new(props::c10::C10),
         Box::new(props::c12::C12),
         Box::new(props::c13::C13),
         Box::new(props::c14::C14),
